@@ -650,6 +650,12 @@ pub fn run_history(rng: &mut Rng, cfg: &HistCfg, dir: &Path, tag: &str) -> HistR
                 let pick = *rng.pick(&eff);
                 redelivery_probe(&mut w, m, pick, rng.range(1, 2), &mut mon, "after-fixpoint");
             }
+            // every commit that took effect here, newest first (an applied commit that looks
+            // "better than what is recorded for its epoch" would roll the group back)
+            let commits: Vec<usize> = eff.iter().copied().filter(|i| w.log[*i].kind == PubKind::Commit).rev().take(8).collect();
+            for c in commits {
+                redelivery_probe(&mut w, m, c, 1, &mut mon, "after-fixpoint-every-commit");
+            }
         }
     }
 
